@@ -247,8 +247,17 @@ def run_job(job, propdir, verbose=False):
             res.reason = "could not list properties for split run: " + (err or out)[-500:]
             return res
         # user assertions one per call; all automatically generated checks in one further call
+        rest = []
         for nm in names:
-            calls.append(["--property", nm])
+            if re.search(job.split if isinstance(job.split, str) else r'\.assertion\.\d+$', nm):
+                calls.append(["--property", nm])
+            else:
+                rest.append(nm)
+        if rest:
+            c = []
+            for nm in rest:
+                c += ["--property", nm]
+            calls.append(c)
     else:
         calls.append([])
     allres = {}
@@ -269,8 +278,9 @@ def run_job(job, propdir, verbose=False):
         res.cmds.append(w["cmd"])
         backends_used.add(w["backend"])
         t_used += w["secs"]
+        wanted = set(c[1::2]) if c else None
         for r in w["results"]:
-            if c and r.get("property") != c[1]:
+            if wanted is not None and r.get("property") not in wanted:
                 continue
             allres[r["property"]] = r
     res.backend = ", ".join(sorted(backends_used))
